@@ -55,7 +55,7 @@ def l2t_case(draw):
     hit = st.sampled_from(["hit", "miss"])
     return {
         "label": label,
-        "tag_fn": draw(st.sampled_from(["none", "none", "single", "list", "raises"])),
+        "tag_fn": draw(st.sampled_from(["none", "none", "single", "list", "raises", "empty_list"])),
         "tag_mapping": opt(hit), "tag_mapping_list": draw(st.booleans()),
         "term_mapping": opt(hit), "key_mapping": opt(hit),
         "key": opt(st.sampled_from(KEYS)), "term": opt(st.sampled_from(KEYS)),
@@ -72,6 +72,8 @@ def l2t_kwargs(spec):
         kw["tag_fn"] = lambda l: _tag("fn", l.upper())
     elif spec["tag_fn"] == "list":
         kw["tag_fn"] = lambda l: [_tag("fn", l), _tag("fn2", "z")]
+    elif spec["tag_fn"] == "empty_list":
+        kw["tag_fn"] = lambda l: []  # the function's answer is "this label carries no tags" - an answer like any other
     elif spec["tag_fn"] == "raises":
         def fn(l):
             raise ValueError("no")
@@ -104,6 +106,8 @@ def ref_label_to_tags(spec):
         return [_tag("fn", label.upper())]
     if spec["tag_fn"] == "list":
         return [_tag("fn", label), _tag("fn2", "z")]
+    if spec["tag_fn"] == "empty_list":
+        return []
     term = _term("explicit_" + spec["term"]) if spec["term"] is not None else None
     if spec["term_mapping"] == "hit":
         term = _term("mapped_term")
